@@ -1,7 +1,10 @@
 import os
+import re
+import subprocess
 import time
+from concurrent.futures import ThreadPoolExecutor
 
-from vlib.core import ToolError, log, run_tlc
+from vlib.core import HARNESS, TV_JAVA_OPTS, ToolError, log, run_tlc
 
 
 def lossy_writer_model(check):
@@ -20,6 +23,38 @@ def lossy_writer_model(check):
         raise ToolError("MC_FaultIO_lossy.cfg: the lossy writer was not rejected by the writer invariants")
 
 
+def detection_selftest(check):
+    """the driver's deliberately defective writers / readers (harness/p/c18/src/selftest.rs: write instead of write_all,
+    swallowed write / flush errors, unwrap on an I/O error, bytes re-sent after a short write, Interrupted reported as a
+    failure, a made-up error, a reader taking a source error for the end of data, a partial last row, a cut footer file
+    accepted) must be rejected event by event by Trace_FaultIO; their well-behaved counterparts must be accepted"""
+    t0 = time.time()
+    r = subprocess.run([os.path.join(HARNESS, "target", "release", "c18"), "selftest", "--out", check.work],
+                       stdout=subprocess.PIPE, stderr=subprocess.STDOUT, text=True, timeout=600)
+    m = re.search(r"DRIVER c18-selftest events=(\d+) controls=(\d+)", r.stdout)
+    if r.returncode != 0 or not m:
+        log(r.stdout[-2000:])
+        raise ToolError("c18 selftest failed")
+    n_bad, n_good = int(m.group(1)), int(m.group(2))
+
+    def tv(name):
+        return run_tlc("Trace_FaultIO", "Trace_FaultIO.cfg", os.path.join(check.work, "md_" + name), workers=1, timeout=600,
+                       env_extra={"TRACE": os.path.join(check.work, name + ".ndjson")}, java_opts=TV_JAVA_OPTS, xmx="2g")
+    with ThreadPoolExecutor(max_workers=2) as ex:
+        bad, good = list(ex.map(tv, ["bad-00", "good-00"]))
+    rejected = {int(i) for i in re.findall(r'<<"REJECT", (\d+),', bad["out"])}
+    if rejected != set(range(1, n_bad + 1)) or "KNOWN" in bad["out"]:
+        log(bad["out"][-3000:])
+        raise ToolError(f"detection self-test: Trace_FaultIO rejected {sorted(rejected)} of the {n_bad} defective sessions")
+    if "REJECT" in good["out"] or "KNOWN" in good["out"] or "Error:" in good["out"] or good["rc"] != 0:
+        log(good["out"][-3000:])
+        raise ToolError("detection self-test: Trace_FaultIO rejected a session of the well-behaved control writer / reader")
+    check.extra_cov["selftest_defective_sessions_rejected"] = n_bad
+    check.extra_cov["selftest_control_sessions_accepted"] = n_good
+    log(f"[selftest] Trace_FaultIO: {n_bad}/{n_bad} sessions of deliberately defective writers / readers rejected, "
+        f"{n_good}/{n_good} control sessions accepted ({time.time() - t0:.0f}s)")
+
+
 PLAN = dict(
     id="C18",
     level="fault_enumeration",
@@ -28,13 +63,13 @@ PLAN = dict(
              workers_quick=2, workers_thorough=4, timeout_quick=400, timeout_thorough=2400)],
     drive=[dict(bin="c18", args=["run"], timeout=3000)],
     tv=[
-        dict(glob="fw-*.ndjson", module="Trace_FaultIO", cfg="Trace_FaultIO.cfg",
-             corrupt=["outcome", "acc_len", "acc_digest", "sret", "ares", "fired"]),
-        dict(glob="fr-*.ndjson", module="Trace_FaultIO", cfg="Trace_FaultIO.cfg",
-             corrupt=["read", "got", "outcome"]),
+        dict(glob="fio-*.ndjson", module="Trace_FaultIO", cfg="Trace_FaultIO.cfg",
+             corrupt=["acc_len", "acc_digest", "sret", "ares", "got", "outcome", "rb_rows"],
+             # (the CSV read-back rule leaves the last row of a cut text unconstrained)
+             corrupt_filter=lambda e: not (e.get("op") == "wsess" and e.get("rb", "none") != "none" and e.get("rb_cls") == "csv")),
     ],
-    extra_steps=[lossy_writer_model],
-    level_text="Every sink call index of every writer session (arrow-ipc FileWriter / StreamWriter, parquet ArrowWriter, arrow-csv Writer, "
+    extra_steps=[lossy_writer_model, detection_selftest],
+    level_text="Every sink call index of every writer session (arrow-ipc FileWriter / StreamWriter, parquet ArrowWriter and AsyncArrowWriter, arrow-csv Writer, "
                "arrow-json LineDelimitedWriter / ArrayWriter, arrow-avro OCF and single-object writers; direct, BufWriter-wrapped and "
                "*_buffered variants; finish / close / into_inner / flush / sync scripts) gets a fault of every kind (dead sink, one-shot "
                "error, short write, Interrupted, Ok(0)); every source call index of every reader session (IPC FileReader / StreamReader, "
@@ -44,7 +79,8 @@ PLAN = dict(
                "is one event; TLC (Trace_FaultIO.tla over FaultOps.tla) re-derives the sink's behaviour from the logged call log and judges "
                "W0-W4 (no panic / hang; a sink failure is reported by the issuing or a later API call; all-ok sessions delivered every "
                "byte; accepted bytes are a prefix of the fault-free output, by length + digest projections; short / Interrupted writes are "
-               "invisible) and T1-T3 (cut footer files rejected; self-delimiting formats yield a prefix; source faults yield an error or "
+               "invisible; W5: Parquet never reports a successful finish / close after a failed row group; W6: when a terminating call succeeds "
+               "after a reported failure, the accepted bytes read back with the format's reader never contain a row that was not written) and T1-T3 (cut footer files rejected; self-delimiting formats yield a prefix; source faults yield an error or "
                "the fault-free rows). The abstract writer (std BufWriter + write_all protocol) and reader (read_exact framing, footer "
                "validation) machines of FaultIO.tla are model-checked for every fault index / kind / capacity / cut.",
     level_note="Quick tier: at most 60 fault indices per session script (all of them when the script has <= 60 calls, else first / last / "
